@@ -39,7 +39,8 @@ type KMSCall struct {
 type KMSRetained struct {
 	Region string
 	Op     string
-	Buf    []byte
+	Buf    []byte // the very slice handed out (the plugin is expected to wipe it)
+	Value  []byte // a private copy of its content at that moment (for leak scanning)
 }
 
 // KMSRegion is one regional endpoint with its own master key and fault switches.
@@ -100,7 +101,7 @@ func (k *KMSRegion) log(op string, ok bool) {
 
 func (k *KMSRegion) retain(op string, b []byte) {
 	k.w.mu.Lock()
-	k.w.Retained = append(k.w.Retained, KMSRetained{k.Region, op, b})
+	k.w.Retained = append(k.w.Retained, KMSRetained{k.Region, op, b, append([]byte(nil), b...)})
 	k.w.mu.Unlock()
 }
 
